@@ -351,3 +351,826 @@ Proof.
           else firstn (Z.to_nat (le_dec (firstn 4 (skipn 96 (firstn 227 src))))) src) with (hdr_stream src).
   cbv beta iota. reflexivity.
 Qed.
+
+Lemma dec_fields_rest l : no_var l = true -> forall bs, snd (dec_fields l bs) = skipn (Z.to_nat (layout_width l)) bs.
+Proof.
+  induction l as [|[[k w] n] l IH]; intros Hnv bs; [reflexivity|].
+  cbn [no_var forallb fst] in Hnv. apply andb_true_iff in Hnv as [Hk Hnv]. fold (no_var l) in Hnv.
+  assert (k <> KVar) as Hk' by (intros ->; discriminate).
+  cbn [dec_fields]. pose proof (dec_field_rest k w bs Hk') as Hr.
+  destruct (dec_field k w bs) as [v rest]. cbn [snd] in Hr. subst rest.
+  specialize (IH Hnv (skipn w bs)). destruct (dec_fields l (skipn w bs)) as [a r]. cbn [snd] in *.
+  rewrite IH, layout_width_cons. cbn [fst snd]. pose proof (layout_width_nonneg l).
+  rewrite Z2Nat.inj_add, Nat2Z.id by lia. now rewrite skipn_add.
+Qed.
+
+Lemma hr_fixed_facts mnr : no_var (fixed_part (hr_layout mnr)) = true /\ 227 <= layout_width (fixed_part (hr_layout mnr)).
+Proof.
+  unfold hr_layout. destruct (mnr >=? 4); [|destruct (mnr =? 3); [|destruct (mnr =? 2)]]; split; try reflexivity; vm_compute; discriminate.
+Qed.
+
+Lemma dec_vlrs_rest_len ext : forall n bs l r, dec_vlrs ext n bs = Ok (l, r) -> (length r <= length bs)%nat.
+Proof.
+  induction n as [|n IH]; intros bs l r H.
+  - cbn in H. injection H as _ <-. lia.
+  - cbn [dec_vlrs] in H.
+    destruct (dec_fields (fixed_part (vlr_r_layout ext)) bs) as [a rest] eqn:Ed.
+    assert (length rest <= length bs)%nat as Hr.
+    { assert (rest = snd (dec_fields (fixed_part (vlr_r_layout ext)) bs)) as -> by now rewrite Ed.
+      rewrite dec_fields_rest by (destruct ext; reflexivity). rewrite skipn_length. lia. }
+    destruct (ascii_ok (abytes a "user_id")); [|discriminate].
+    match type of H with bind ?e _ = _ => destruct e as [[l' r']|e'] eqn:Ev; [|discriminate] end.
+    cbn [bind fst snd] in H. injection H as _ <-.
+    apply IH in Ev. rewrite skipn_length in Ev. lia.
+Qed.
+
+(* where the points start: the raw offset field, never inside the fixed header *)
+Lemma dec_header_offset src b rh : dec_header src b = Ok rh ->
+  rh_offset rh = le_dec (firstn 4 (skipn 96 src)) /\ 227 <= rh_offset rh.
+Proof.
+  intros H. pose proof (dec_header_pre _ _ _ H) as [Hl _].
+  revert H. unfold dec_header. cbv zeta. rewrite raw_offset_bytes. intros H.
+  match type of H with (if ?c then _ else _) = _ => destruct c eqn:E1; [discriminate|] end.
+  match type of H with (if ?c then _ else _) = _ => destruct c eqn:E2; [discriminate|] end.
+  match type of H with (if ?c then _ else _) = _ => destruct c eqn:E3; [discriminate|] end.
+  set (off0 := le_dec (firstn 4 (skipn 96 src))) in *.
+  set (stream := if off0 <? 227 then src else firstn (Z.to_nat off0) src) in *.
+  set (mnr := le_dec (firstn 1 (skipn 25 stream))) in *.
+  pose proof (hr_offset_field mnr stream) as Hof.
+  destruct (hr_fixed_facts mnr) as [Hnv Hw].
+  pose proof (dec_fields_rest _ Hnv stream) as Hrest.
+  destruct (dec_fields (fixed_part (hr_layout mnr)) stream) as [a rest] eqn:Ed.
+  cbn [fst snd] in Hof, Hrest.
+  match type of H with (if ?c then _ else _) = _ => destruct c eqn:E4; [discriminate|] end.
+  match type of H with (if ?c then _ else _) = _ => destruct c eqn:E5; [discriminate|] end.
+  match type of H with bind ?e _ = _ => destruct e as [[vl rest3]|e'] eqn:Ev; [|discriminate] end.
+  cbn [bind] in H.
+  match type of H with (if ?c then _ else _) = _ => destruct c eqn:E6; [discriminate|] end.
+  match type of H with match ?e with Some _ => _ | None => _ end = _ => destruct e as [std|] eqn:Es; [|discriminate] end.
+  match type of H with match ?e with Some _ => _ | None => _ end = _ => destruct e as [fs|] eqn:Ef; [|discriminate] end.
+  match type of H with (if ?c then _ else _) = _ => destruct c eqn:E7; [discriminate|] end.
+  match type of H with (if ?c then _ else _) = _ => destruct c eqn:E8; [discriminate|] end.
+  match type of H with bind ?e _ = _ => destruct e as [ev|e'] eqn:Ee; [|discriminate] end.
+  cbn [bind] in H. injection H as <-. cbn [rh_offset].
+  assert (aint a "offset_to_point_data" = off0) as Hoff.
+  { rewrite Hof. unfold stream. destruct (off0 <? 227) eqn:E; [reflexivity|]. rewrite raw_off_trunc by lia. reflexivity. }
+  split; [exact Hoff|]. rewrite Hoff.
+  destruct (off0 <? 227) eqn:E; [|lia]. exfalso.
+  apply dec_vlrs_rest_len in Ev. rewrite skipn_length in Ev.
+  assert (stream = src) as Hs by (unfold stream; reflexivity). 
+  rewrite Hrest, Hs in Ev. rewrite skipn_length in Ev.
+  rewrite Hoff in E6. unfold len in E6. rewrite Hs in E6. lia.
+Qed.
+
+(* the decoded fields are those of the fixed header, read from the prefetched bytes *)
+Lemma dec_header_fields src b rh : dec_header src b = Ok rh ->
+  let a := fst (dec_fields (fixed_part (hr_layout (hdr_minor src))) (hdr_stream src)) in
+  (forall n, String.eqb "extra_header_bytes" n = false -> String.eqb "extra_vlr_bytes" n = false ->
+             aget (rh_fields rh) n = aget a n)
+  /\ rh_compressed rh = is_point_format_compressed (aint a "point_format_id").
+Proof.
+  unfold dec_header, hdr_minor, hdr_stream. cbv zeta. intros H.
+  match type of H with (if ?c then _ else _) = _ => destruct c eqn:E1; [discriminate|] end.
+  match type of H with (if ?c then _ else _) = _ => destruct c eqn:E2; [discriminate|] end.
+  match type of H with (if ?c then _ else _) = _ => destruct c eqn:E3; [discriminate|] end.
+  set (off0 := le_dec (firstn 4 (skipn 96 (firstn 227 src)))) in *.
+  set (stream := if off0 <? 227 then src else firstn (Z.to_nat off0) src) in *.
+  set (mnr := le_dec (firstn 1 (skipn 25 stream))) in *.
+  destruct (dec_fields (fixed_part (hr_layout mnr)) stream) as [a rest] eqn:Ed.
+  cbn [fst].
+  match type of H with (if ?c then _ else _) = _ => destruct c eqn:E4; [discriminate|] end.
+  match type of H with (if ?c then _ else _) = _ => destruct c eqn:E5; [discriminate|] end.
+  match type of H with bind ?e _ = _ => destruct e as [[vl rest3]|e'] eqn:Ev; [|discriminate] end.
+  cbn [bind] in H.
+  match type of H with (if ?c then _ else _) = _ => destruct c eqn:E6; [discriminate|] end.
+  match type of H with match ?e with Some _ => _ | None => _ end = _ => destruct e as [std|] eqn:Es; [|discriminate] end.
+  match type of H with match ?e with Some _ => _ | None => _ end = _ => destruct e as [fs|] eqn:Ef; [|discriminate] end.
+  match type of H with (if ?c then _ else _) = _ => destruct c eqn:E7; [discriminate|] end.
+  match type of H with (if ?c then _ else _) = _ => destruct c eqn:E8; [discriminate|] end.
+  match type of H with bind ?e _ = _ => destruct e as [ev|e'] eqn:Ee; [|discriminate] end.
+  cbn [bind] in H. injection H as <-. cbn [rh_fields rh_compressed].
+  split; [|reflexivity].
+  intros n N1 N2. now rewrite !aget_aset_other by assumption.
+Qed.
+
+Lemma hr_minor_field mnr bs :
+  aint (fst (dec_fields (fixed_part (hr_layout mnr)) bs)) "version.minor" = le_dec (firstn 1 (skipn 25 bs)).
+Proof.
+  unfold hr_layout.
+  destruct (mnr >=? 4); [|destruct (mnr =? 3); [|destruct (mnr =? 2)]]; apply aint_dec_fields; reflexivity.
+Qed.
+
+Lemma h_minor_raw src b rh : dec_header src b = Ok rh -> h_minor rh = hdr_minor src.
+Proof.
+  intros H. destruct (dec_header_fields _ _ _ H) as [Hg _]. unfold h_minor, aint.
+  rewrite Hg by reflexivity. fold (aint (fst (dec_fields (fixed_part (hr_layout (hdr_minor src))) (hdr_stream src))) "version.minor").
+  rewrite hr_minor_field. reflexivity.
+Qed.
+
+(* with read_evlrs = false nothing is loaded *)
+Lemma dec_header_false_evlrs src rh : dec_header src false = Ok rh -> rh_evlrs rh = None /\ with_evlrs rh None = rh.
+Proof.
+  intros H. destruct (dec_header_shape src false) as [(e & H1 & _)|(rh0 & H1 & _ & _ & H2)]; [congruence|].
+  rewrite H in H1. injection H1 as <-. rewrite H in H2. unfold ev_part in H2.
+  assert (rh = mkRH (rh_fields rh) (rh_vlrs rh) None (rh_fmt rh) (rh_compressed rh) (rh_psize rh) (rh_offset rh)) as E
+    by (destruct (hdr_minor src >=? 4); cbn [bind] in H2; injection H2 as H2; exact H2).
+  split; [rewrite E; reflexivity|]. unfold with_evlrs. symmetry. exact E.
+Qed.
+
+(* what `dec_header src true` is, in terms of the header read without EVLRs *)
+Definition evlrs_of (f : list Z) (rh : rheader) : result (option (list vlr)) :=
+  if h_minor rh >=? 4 then
+    if h_nev rh >? 0 then
+      match dec_vlrs true (Z.to_nat (h_nev rh)) (skipn (Z.to_nat (h_evstart rh)) f) with
+      | Ok p => Ok (Some (fst p)) | Err e => Err e end
+    else Ok (Some [])
+  else Ok None.
+
+Lemma dec_header_true src rh : dec_header src false = Ok rh ->
+  dec_header src true = match evlrs_of src rh with Ok ev => Ok (with_evlrs rh ev) | Err e => Err e end.
+Proof.
+  intros H. destruct (dec_header_shape src true) as [(e & H1 & _)|(rh0 & H1 & _ & _ & H2)]; [congruence|].
+  rewrite H in H1. injection H1 as <-. rewrite H2. unfold ev_part, evlrs_of.
+  rewrite (h_minor_raw _ _ _ H). unfold h_nev, h_evstart.
+  destruct (hdr_minor src >=? 4); [|reflexivity].
+  destruct (aint (rh_fields rh) "number_of_evlrs" >? 0); [|reflexivity].
+  destruct (dec_vlrs true _ _) as [[l r]|e]; reflexivity.
+Qed.
+
+(* the two reads of _prefetch_header_data leave the source at the first point *)
+Lemma prefetch_ok f b rh : dec_header f b = Ok rh -> rh_offset rh <= len f ->
+  exists s1, prefetch (mkSt f 0 []) = (Ok (hdr_stream f), s1) /\ st_bytes s1 = f /\ st_pos s1 = rh_offset rh.
+Proof.
+  intros H Hlen. destruct (dec_header_pre _ _ _ H) as [Hl Hsig]. destruct (dec_header_offset _ _ _ H) as [Hoff Hge].
+  unfold prefetch, prefetch_first_read, prefetch_offset_pos, prefetch_offset_width.
+  change (s_read 227 (mkSt f 0 [])) with (firstn 227 f, mkSt f (0 + len (firstn 227 f)) [ORead 227]).
+  cbv beta iota zeta.
+  assert (len (firstn 227 f) = 227) as L227 by (unfold len; rewrite firstn_length; lia).
+  rewrite !L227.
+  assert (length (firstn 4 (firstn 227 f)) = 4%nat) as L4 by (rewrite !firstn_length; lia).
+  rewrite L4. change (4 =? 0)%nat with false. cbv iota. rewrite Hsig. cbn [negb]. cbv iota.
+  change (227 <? 227) with false. cbv iota.
+  change (Z.to_nat 4) with 4%nat. change (Z.to_nat 96) with 96%nat. rewrite raw_offset_bytes, <- Hoff.
+  set (s1 := mkSt f (0 + 227) [ORead 227]).
+  destruct (s_read_spec (rh_offset rh - 227) s1 ltac:(lia) ltac:(cbn; lia)) as (R1 & R2 & R3 & R4).
+  assert (avail s1 = skipn 227 f) as Ha by reflexivity.
+  assert (snd (s_read (rh_offset rh - 227) s1) = mkSt f (227 + len (fst (s_read (rh_offset rh - 227) s1))) [ORead 227; ORead (rh_offset rh - 227)]) as Hs.
+  { unfold s_read. destruct (rh_offset rh - 227 <? 0) eqn:E; [lia|]. reflexivity. }
+  destruct (s_read (rh_offset rh - 227) s1) as [rest s2]. cbn [fst snd] in *.
+  exists s2. split; [|split; [exact R3|]].
+  - apply f_equal2; [|reflexivity]. f_equal. unfold hdr_stream. cbv zeta. rewrite raw_offset_bytes, <- Hoff.
+    destruct (rh_offset rh <? 227) eqn:E; [lia|].
+    rewrite R1, Ha. replace (Z.to_nat (rh_offset rh)) with (227 + Z.to_nat (rh_offset rh - 227))%nat by lia.
+    now rewrite firstn_add.
+  - rewrite Hs. cbn [st_pos]. rewrite R1, Ha. unfold len in *. rewrite firstn_length, skipn_length. lia.
+Qed.
+
+(* ------------------------------------------------------------------------------------ *)
+(* D. points                                                                             *)
+(* ------------------------------------------------------------------------------------ *)
+Lemma chunks_concat p : (0 < p)%nat -> forall m (d : list Z) fuel, length d = (m * p)%nat -> (m <= fuel)%nat ->
+  concat (chunks_of fuel p d) = d /\ Forall (fun r => length r = p) (chunks_of fuel p d) /\ length (chunks_of fuel p d) = m.
+Proof.
+  intros Hp. induction m as [|m IH]; intros d fuel Hl Hf.
+  - destruct d; [|discriminate]. destruct fuel; cbn; repeat split; constructor.
+  - destruct fuel as [|fuel]; [lia|]. destruct d as [|x d]; [cbn in Hl; lia|].
+    cbn [chunks_of]. set (dd := x :: d) in *.
+    assert (length (skipn p dd) = (m * p)%nat) as Hl' by (rewrite skipn_length; lia).
+    destruct (IH (skipn p dd) fuel Hl' ltac:(lia)) as (I1 & I2 & I3).
+    cbn [concat length]. rewrite I1, I3, firstn_skipn. repeat split.
+    constructor; [|exact I2]. rewrite firstn_length. lia.
+Qed.
+
+(* the stream stands before record number pr of the point area R, which is followed by `tail` *)
+Definition pinv (f : list Z) (R : list (list Z)) (tail : list Z) (pr : Z) (s : stream) : Prop :=
+  st_bytes s = f /\ 0 <= st_pos s /\ avail s = concat (skipn (Z.to_nat pr) R) ++ tail.
+
+Lemma s_readinto_spec n s : 0 <= st_pos s ->
+  fst (s_readinto n s) = firstn (Z.to_nat n) (avail s)
+  /\ avail (snd (s_readinto n s)) = skipn (Z.to_nat n) (avail s)
+  /\ st_bytes (snd (s_readinto n s)) = st_bytes s
+  /\ 0 <= st_pos (snd (s_readinto n s)).
+Proof.
+  intros Hp. unfold s_readinto. cbn [fst snd st_bytes st_pos].
+  split; [reflexivity|]. split; [apply avail_step; exact Hp|]. split; [reflexivity|].
+  pose proof (len_nonneg (firstn (Z.to_nat n) (avail s))). lia.
+Qed.
+
+Lemma concat_firstn_len (p : nat) (R : list (list Z)) m : Forall (fun r => length r = p) R -> (m <= length R)%nat ->
+  length (concat (firstn m R)) = (m * p)%nat.
+Proof.
+  intros HF Hm. rewrite (concat_length_const p) by now apply Forall_firstn. rewrite firstn_length, Nat.min_l by lia. reflexivity.
+Qed.
+
+Lemma read_n_points_spec c ps m s (R' : list (list Z)) tail : 0 < ps -> 0 <= m <= len R' ->
+  Forall (fun r => length r = Z.to_nat ps) R' -> 0 <= st_pos s -> avail s = concat R' ++ tail ->
+  exists s', read_n_points c ps m s = (Ok (firstn (Z.to_nat m) R'), s') /\ st_bytes s' = st_bytes s /\ 0 <= st_pos s'
+             /\ avail s' = concat (skipn (Z.to_nat m) R') ++ tail.
+Proof.
+  intros Hps Hm HF Hp Ha. unfold read_n_points.
+  assert (exists data s', (if c_readinto c then s_readinto (m * ps) s else s_read (m * ps) s) = (data, s')
+            /\ data = firstn (Z.to_nat (m * ps)) (avail s) /\ avail s' = skipn (Z.to_nat (m * ps)) (avail s)
+            /\ st_bytes s' = st_bytes s /\ 0 <= st_pos s') as (data & s' & E & D1 & D2 & D3 & D4).
+  { destruct (c_readinto c).
+    - destruct (s_readinto_spec (m * ps) s Hp) as (A & B & C & D). destruct (s_readinto (m * ps) s) as [d s']. eauto 10.
+    - destruct (s_read_spec (m * ps) s ltac:(nia) Hp) as (A & B & C & D). destruct (s_read (m * ps) s) as [d s']. eauto 10. }
+  rewrite E. exists s'.
+  set (p := Z.to_nat ps) in *. set (k := Z.to_nat m).
+  assert (k <= length R')%nat as Hk by (unfold k, len in *; lia).
+  pose proof (concat_firstn_len p R' k HF Hk) as Hcl.
+  assert (Z.to_nat (m * ps) = (k * p)%nat) as Hmp by (unfold k, p; nia).
+  assert (concat R' ++ tail = concat (firstn k R') ++ (concat (skipn k R') ++ tail)) as Hsplit.
+  { rewrite app_assoc, <- concat_app, firstn_skipn. reflexivity. }
+  assert (data = concat (firstn k R')) as Hd.
+  { rewrite D1, Ha, Hmp, Hsplit. apply firstn_app_exact. exact Hcl. }
+  split; [|split; [exact D3|split; [exact D4|]]].
+  - destruct (ps <=? 0) eqn:E0; [lia|]. f_equal.
+    assert (len data = m * ps) as Hld by (unfold len; rewrite Hd, Hcl; unfold k, p; nia).
+    rewrite Hld, Z.mod_mul by lia. change (0 =? 0) with true. cbv iota. f_equal.
+    rewrite Hd. apply chunks_whole; [unfold p; lia|now apply Forall_firstn|].
+    rewrite Hcl, firstn_length. unfold p. nia.
+  - rewrite D2, Ha, Hmp, Hsplit. apply skipn_app_exact. exact Hcl.
+Qed.
+
+Lemma skipn_skipn_Z {A} (a b : Z) (l : list A) : 0 <= a -> 0 <= b ->
+  skipn (Z.to_nat b) (skipn (Z.to_nat a) l) = skipn (Z.to_nat (a + b)) l.
+Proof. intros Ha Hb. rewrite Z2Nat.inj_add by lia. now rewrite skipn_add. Qed.
+
+(* LasReader.read_points with points_read = pr *)
+Lemma read_points_spec c rh f R tail pr n s : 0 < rh_psize rh ->
+  Forall (fun r => length r = Z.to_nat (rh_psize rh)) R -> len R = Z.max 0 (h_count rh) ->
+  0 <= pr <= len R -> pinv f R tail pr s ->
+  exists X pr' s', read_points c rh pr n s = (Ok X, pr', s') /\ pr <= pr' <= len R /\ pinv f R tail pr' s'
+    /\ skipn (Z.to_nat pr) R = X ++ skipn (Z.to_nat pr') R /\ (n < 0 -> pr' = len R).
+Proof.
+  intros Hps HF HR Hpr (I1 & I2 & I3). unfold read_points.
+  destruct (h_count rh - pr <=? 0) eqn:El.
+  - exists [], pr, s. repeat split; try assumption; try lia.
+  - set (m := if n <? 0 then h_count rh - pr else Z.min n (h_count rh - pr)).
+    assert (0 <= m <= len R - pr) as Hm by (unfold m; destruct (n <? 0) eqn:En; lia).
+    assert (Forall (fun r => length r = Z.to_nat (rh_psize rh)) (skipn (Z.to_nat pr) R)) as HF'.
+    { apply Forall_forall. intros x Hx. rewrite Forall_forall in HF. apply HF.
+      rewrite <- (firstn_skipn (Z.to_nat pr) R). apply in_or_app. now right. }
+    assert (len (skipn (Z.to_nat pr) R) = len R - pr) as Hls by (unfold len in *; rewrite skipn_length; lia).
+    destruct (read_n_points_spec c (rh_psize rh) m s (skipn (Z.to_nat pr) R) tail Hps ltac:(lia) HF' I2 I3)
+      as (s' & E & S1 & S2 & S3).
+    rewrite E. exists (firstn (Z.to_nat m) (skipn (Z.to_nat pr) R)), (pr + m), s'.
+    split; [reflexivity|]. split; [lia|]. split; [|split].
+    + split; [congruence|]. split; [exact S2|]. rewrite S3, skipn_skipn_Z by lia. reflexivity.
+    + rewrite <- skipn_skipn_Z by lia. now rewrite firstn_skipn.
+    + intros Hn. unfold m. destruct (n <? 0) eqn:En; lia.
+Qed.
+
+Lemma chunk_loop_spec c rh f R tail k : 0 < rh_psize rh ->
+  Forall (fun r => length r = Z.to_nat (rh_psize rh)) R -> len R = Z.max 0 (h_count rh) ->
+  forall fuel pr s, 0 <= pr <= len R -> pinv f R tail pr s ->
+  exists X pr' s', chunk_loop fuel c rh k pr s = (Ok X, pr', s') /\ pr <= pr' <= len R /\ pinv f R tail pr' s'
+    /\ skipn (Z.to_nat pr) R = X ++ skipn (Z.to_nat pr') R.
+Proof.
+  intros Hps HF HR. induction fuel as [|fu IH]; intros pr s Hpr Hinv.
+  - exists [], pr, s. split; [reflexivity|]. split; [lia|]. split; [exact Hinv|reflexivity].
+  - cbn [chunk_loop].
+    destruct (read_points_spec c rh f R tail pr k s Hps HF HR Hpr Hinv) as (X & pr1 & s1 & E & P1 & P2 & P3 & _).
+    rewrite E. destruct X as [|r0 X].
+    + exists [], pr1, s1. split; [reflexivity|]. split; [lia|]. split; [exact P2|exact P3].
+    + destruct (IH pr1 s1 ltac:(lia) P2) as (X2 & pr2 & s2 & E2 & Q1 & Q2 & Q3).
+      rewrite E2. exists ((r0 :: X) ++ X2), pr2, s2. split; [reflexivity|]. split; [lia|]. split; [exact Q2|].
+      rewrite P3, Q3, app_assoc. reflexivity.
+Qed.
+
+(* the records of the point area, as np.frombuffer(count, offset) / read_records cut them *)
+Definition point_recs (f : list Z) (rh : rheader) : list (list Z) :=
+  let data := firstn (Z.to_nat (Z.max 0 (h_count rh) * rh_psize rh)) (skipn (Z.to_nat (rh_offset rh)) f) in
+  chunks_of (length data) (Z.to_nat (rh_psize rh)) data.
+
+Lemma point_recs_spec f rh : 0 < rh_psize rh -> 0 <= rh_offset rh -> points_present f rh ->
+  Forall (fun r => length r = Z.to_nat (rh_psize rh)) (point_recs f rh) /\ len (point_recs f rh) = Z.max 0 (h_count rh)
+  /\ skipn (Z.to_nat (rh_offset rh)) f
+      = concat (point_recs f rh) ++ skipn (Z.to_nat (rh_offset rh + Z.max 0 (h_count rh) * rh_psize rh)) f.
+Proof.
+  intros Hps Hoff Hpp. unfold points_present in Hpp. unfold point_recs. cbv zeta.
+  set (cnt := Z.max 0 (h_count rh)) in *. set (ps := rh_psize rh) in *. set (off := rh_offset rh) in *.
+  set (data := firstn (Z.to_nat (cnt * ps)) (skipn (Z.to_nat off) f)).
+  assert (length data = (Z.to_nat cnt * Z.to_nat ps)%nat) as Hl.
+  { unfold data. rewrite firstn_length, skipn_length. unfold len in Hpp. nia. }
+  destruct (chunks_concat (Z.to_nat ps) ltac:(lia) (Z.to_nat cnt) data (length data) Hl ltac:(nia)) as (C1 & C2 & C3).
+  split; [exact C2|]. split; [unfold len; rewrite C3; lia|].
+  rewrite C1. unfold data. rewrite <- skipn_skipn_Z by nia. now rewrite firstn_skipn.
+Qed.
+
+Lemma laid_out_decomp f rh : laid_out f rh ->
+  exists R tail, Forall (fun r => length r = Z.to_nat (rh_psize rh)) R /\ len R = Z.max 0 (h_count rh)
+    /\ skipn (Z.to_nat (rh_offset rh)) f = concat R ++ tail
+    /\ tail = skipn (Z.to_nat (rh_offset rh + Z.max 0 (h_count rh) * rh_psize rh)) f.
+Proof.
+  intros (Hd & _ & _ & Hps & Hpp). destruct (dec_header_offset _ _ _ Hd) as [_ Hoff].
+  destruct (point_recs_spec f rh Hps ltac:(lia) Hpp) as (A & B & C).
+  exists (point_recs f rh). eexists. repeat split; eassumption.
+Qed.
+
+(* decoded integers are not negative when the bytes are bytes *)
+Definition val_nonneg (v : value) : Prop := match v with VInt z => 0 <= z | VBytes _ => True end.
+
+Lemma aint_nonneg a n : Forall (fun p => val_nonneg (snd p)) a -> 0 <= aint a n.
+Proof.
+  intros HF. unfold aint, aget.
+  assert (forall acc, match acc with Some v => val_nonneg v | None => True end ->
+            match aget_last a n acc with Some v => val_nonneg v | None => True end) as G.
+  { induction HF as [|[m v] a Hv _ IH]; intros acc Hacc; [exact Hacc|].
+    cbn [aget_last]. apply IH. destruct (String.eqb m n); [exact Hv|exact Hacc]. }
+  specialize (G None I). destruct (aget_last a n None) as [[z|b]|]; cbn in G; lia.
+Qed.
+
+Lemma dec_fields_nonneg l : forall bs, bytes_ok bs = true -> Forall (fun p => val_nonneg (snd p)) (fst (dec_fields l bs)).
+Proof.
+  induction l as [|[[k w] n] l IH]; intros bs Hok; [constructor|].
+  cbn [dec_fields]. destruct (dec_field k w bs) as [v rest] eqn:Ed.
+  assert (val_nonneg v /\ bytes_ok rest = true) as [Hv Hr].
+  { destruct k; cbn [dec_field] in Ed; injection Ed as <- <-; cbn [val_nonneg]; split; trivial;
+      try (now apply bytes_ok_skipn); now apply le_dec_nonneg, bytes_ok_firstn. }
+  specialize (IH rest Hr). destruct (dec_fields l rest) as [a r]. cbn [fst] in *. constructor; assumption.
+Qed.
+
+Lemma bytes_ok_hdr_stream f : bytes_ok f = true -> bytes_ok (hdr_stream f) = true.
+Proof. intros H. unfold hdr_stream. cbv zeta. destruct (_ <? 227); [exact H|now apply bytes_ok_firstn]. Qed.
+
+Lemma header_int_nonneg f b rh n : dec_header f b = Ok rh -> bytes_ok f = true ->
+  String.eqb "extra_header_bytes" n = false -> String.eqb "extra_vlr_bytes" n = false -> 0 <= aint (rh_fields rh) n.
+Proof.
+  intros H Hok N1 N2. destruct (dec_header_fields _ _ _ H) as [Hg _]. unfold aint. rewrite Hg by assumption.
+  apply aint_nonneg, dec_fields_nonneg, bytes_ok_hdr_stream, Hok.
+Qed.
+
+(* ------------------------------------------------------------------------------------ *)
+(* E. EVLRs                                                                              *)
+(* ------------------------------------------------------------------------------------ *)
+Lemma avail_seek p s : avail (s_seek p s) = skipn (Z.to_nat p) (st_bytes s).
+Proof. reflexivity. Qed.
+
+(* LasHeader.read_evlrs on a seekable stream: the EVLRs found by seeking, position restored *)
+Lemma hdr_read_evlrs_seekable c rh f s : c_seekable c = true -> st_bytes s = f -> bytes_ok f = true ->
+  0 <= st_pos s -> 0 <= h_evstart rh ->
+  match evlrs_of f rh with
+  | Ok ev => exists s', hdr_read_evlrs c rh s = (Ok (with_evlrs rh ev), s') /\ st_bytes s' = f /\ st_pos s' = st_pos s
+  | Err e => exists s', hdr_read_evlrs c rh s = (Err e, s') /\ st_bytes s' = f
+  end.
+Proof.
+  intros Hc Hb Hok Hp Hst. unfold evlrs_of, hdr_read_evlrs.
+  destruct (h_minor rh >=? 4); [|exists s; repeat split; assumption].
+  destruct (h_nev rh >? 0); [|exists s; repeat split; assumption].
+  unfold s_seekable. rewrite Hc. unfold s_tell.
+  set (s3 := s_seek (h_evstart rh) _).
+  destruct (sread_vlrs_spec (Z.to_nat (h_nev rh)) s3 Hst ltac:(unfold s3; cbn [s_seek st_bytes]; rewrite Hb; exact Hok)) as [V1 V2].
+  assert (avail s3 = skipn (Z.to_nat (h_evstart rh)) f) as Ha by (unfold s3; rewrite avail_seek; cbn [st_bytes]; now rewrite Hb).
+  rewrite Ha in V1. destruct (sread_vlrs (Z.to_nat (h_nev rh)) s3) as [r s4]. cbn [fst snd] in V1, V2.
+  rewrite V1. cbn [st_bytes] in V2.
+  destruct (dec_vlrs true (Z.to_nat (h_nev rh)) (skipn (Z.to_nat (h_evstart rh)) f)) as [[l rest]|e].
+  - eexists. split; [reflexivity|]. cbn [s_seek st_bytes st_pos fst]. split; [|reflexivity].
+    rewrite V2. unfold s3. cbn [s_seek st_bytes]. exact Hb.
+  - eexists. split; [reflexivity|]. rewrite V2. unfold s3. cbn [s_seek st_bytes]. exact Hb.
+Qed.
+
+Lemma with_evlrs_fields rh ev : rh_fields (with_evlrs rh ev) = rh_fields rh.
+Proof. reflexivity. Qed.
+Lemma with_evlrs_twice rh a b : with_evlrs (with_evlrs rh a) b = with_evlrs rh b.
+Proof. reflexivity. Qed.
+
+Lemma evlrs_of_none f rh : evlrs_of f rh = Ok None -> (h_minor rh >=? 4) = false.
+Proof.
+  unfold evlrs_of. destruct (h_minor rh >=? 4); [|reflexivity].
+  destruct (h_nev rh >? 0); [|discriminate]. destruct (dec_vlrs _ _ _) as [[l r]|e]; discriminate.
+Qed.
+
+(* ------------------------------------------------------------------------------------ *)
+(* F. opening, finishing, and the whole read                                             *)
+(* ------------------------------------------------------------------------------------ *)
+Lemma open_reader_spec c e f rh : laid_out f rh ->
+  exists s1, st_bytes s1 = f /\
+   ((exists rh1, open_reader c e (mkSt f 0 []) = (Ok rh1, s1) /\ st_pos s1 = rh_offset rh
+        /\ (rh1 = rh \/ exists ev, evlrs_of f rh = Ok ev /\ rh1 = with_evlrs rh ev))
+    \/ (exists er, open_reader c e (mkSt f 0 []) = (Err er, s1) /\ evlrs_of f rh = Err er)).
+Proof.
+  intros (Hd & Hok & Hcomp & Hps & Hpp).
+  destruct (dec_header_offset _ _ _ Hd) as [_ Hoff]. destruct (dec_header_pre _ _ _ Hd) as [Hl _].
+  assert (rh_offset rh <= len f) as Hle.
+  { unfold points_present in Hpp. nia. }
+  destruct (prefetch_ok f false rh Hd Hle) as (s1 & P1 & P2 & P3).
+  unfold open_reader. rewrite P1, (dec_header_prefetched f Hl), Hd, Hcomp.
+  destruct e; [|exists s1; split; [exact P2|]; left; exists rh; repeat split; auto].
+  assert (0 <= h_evstart rh) as Hst by (apply (header_int_nonneg f false); auto).
+  destruct (c_seekable c) eqn:Hc.
+  - pose proof (hdr_read_evlrs_seekable c rh f s1 Hc P2 Hok ltac:(lia) Hst) as Hs.
+    destruct (evlrs_of f rh) as [ev|er].
+    + destruct Hs as (s' & E & B & Ps). exists s'. split; [exact B|]. left. exists (with_evlrs rh ev).
+      split; [exact E|]. split; [lia|]. right. exists ev. split; reflexivity.
+    + destruct Hs as (s' & E & B). exists s'. split; [exact B|]. right. exists er. split; [exact E|reflexivity].
+  - destruct (dec_header_false_evlrs _ _ Hd) as [_ Hwn].
+    unfold hdr_read_evlrs, evlrs_of.
+    destruct (h_minor rh >=? 4).
+    + destruct (h_nev rh >? 0).
+      * unfold s_seekable. rewrite Hc. eexists. split; [|left; exists rh; split; [rewrite Hwn; reflexivity|]]; cbn [st_bytes st_pos]; auto.
+      * exists s1. split; [exact P2|]. left. eexists. split; [reflexivity|]. split; [exact P3|]. right. eexists. split; reflexivity.
+    + exists s1. split; [exact P2|]. left. eexists. split; [reflexivity|]. split; [exact P3|]. right. eexists. split; reflexivity.
+Qed.
+
+Lemma finish_evlrs_spec c f rh rh1 s : laid_out f rh -> (c_seekable c = true \/ evlrs_adjacent rh) ->
+  st_bytes s = f -> 0 <= st_pos s ->
+  avail s = skipn (Z.to_nat (rh_offset rh + Z.max 0 (h_count rh) * rh_psize rh)) f ->
+  (rh1 = rh \/ exists ev, evlrs_of f rh = Ok ev /\ rh1 = with_evlrs rh ev) ->
+  match evlrs_of f rh with
+  | Ok ev => exists s', finish_evlrs c rh1 s = (Ok (with_evlrs rh ev), s')
+  | Err e => exists s', finish_evlrs c rh1 s = (Err e, s')
+  end.
+Proof.
+  intros (Hd & Hok & Hcomp & Hps & Hpp) Hcase Hb Hp Ha [->|(ev & Hev & ->)].
+  - destruct (dec_header_false_evlrs _ _ Hd) as [Hnone Hwn].
+    assert (0 <= h_evstart rh) as Hst by (apply (header_int_nonneg f false); auto).
+    unfold finish_evlrs. rewrite Hnone. cbn [is_none]. rewrite !andb_true_r.
+    destruct (h_minor rh >=? 4) eqn:E4.
+    + destruct (h_nev rh >? 0) eqn:En; cbn [andb].
+      * unfold s_seekable. destruct (c_seekable c) eqn:Hc.
+        -- match goal with |- context [hdr_read_evlrs c rh ?s1] =>
+             pose proof (hdr_read_evlrs_seekable c rh f s1 Hc Hb Hok Hp Hst) as Hs end.
+           destruct (evlrs_of f rh) as [ev|er].
+           ++ destruct Hs as (s' & E & _). exists s'. exact E.
+           ++ destruct Hs as (s' & E & _). exists s'. exact E.
+        -- destruct Hcase as [Hc'|Hadj]; [congruence|].
+           specialize (Hadj ltac:(lia) ltac:(lia)).
+           match goal with |- context [sread_vlrs ?n ?s1] =>
+             destruct (sread_vlrs_spec n s1 Hp ltac:(cbn [st_bytes]; rewrite Hb; exact Hok)) as [V1 _];
+             assert (avail s1 = avail s) as Hav by reflexivity;
+             destruct (sread_vlrs n s1) as [r s2] end.
+           cbn [fst] in V1. rewrite Hav, Ha, <- Hadj in V1. rewrite V1.
+           unfold evlrs_of. rewrite E4, En.
+           destruct (dec_vlrs true (Z.to_nat (h_nev rh)) (skipn (Z.to_nat (h_evstart rh)) f)) as [[l rest]|er]; eexists; reflexivity.
+      * unfold evlrs_of. rewrite E4, En. eexists. reflexivity.
+    + cbn [andb]. unfold evlrs_of. rewrite E4. eexists. rewrite Hwn. reflexivity.
+  - rewrite Hev. unfold finish_evlrs. change (h_minor (with_evlrs rh ev)) with (h_minor rh). cbn [rh_evlrs with_evlrs].
+    destruct ev as [x|].
+    + cbn [is_none]. rewrite !andb_false_r. eexists. reflexivity.
+    + rewrite (evlrs_of_none _ _ Hev). cbn [andb]. eexists. reflexivity.
+Qed.
+
+Lemma read_file_spec f rh R tail : laid_out f rh ->
+  Forall (fun r => length r = Z.to_nat (rh_psize rh)) R -> len R = Z.max 0 (h_count rh) ->
+  skipn (Z.to_nat (rh_offset rh)) f = concat R ++ tail ->
+  read_file f = match evlrs_of f rh with Ok ev => Ok (mkLF (with_evlrs rh ev) R) | Err e => Err e end.
+Proof.
+  intros (Hd & Hok & Hcomp & Hps & Hpp) HF HR Hsk.
+  destruct (dec_header_offset _ _ _ Hd) as [_ Hoff].
+  unfold read_file. rewrite (dec_header_true _ _ Hd).
+  destruct (evlrs_of f rh) as [ev|er]; [|reflexivity].
+  cbn [bind with_evlrs rh_fields rh_offset rh_psize]. fold (h_count rh).
+  destruct (h_count rh <=? 0) eqn:Ec.
+  - assert (R = []) as -> by (destruct R; [reflexivity|unfold len in HR; cbn [length] in HR; lia]). reflexivity.
+  - rewrite (read_records_prefix f (rh_offset rh) (rh_psize rh) (h_count rh) R tail Hps ltac:(lia) ltac:(lia)).
+    + cbn [bind]. replace (Z.to_nat (h_count rh)) with (length R) by (unfold len in HR; lia). now rewrite firstn_all.
+    + eapply Forall_impl; [|exact HF]. intros r Hr. cbv beta in Hr. unfold len. lia.
+    + exact Hsk.
+Qed.
+
+(* whatever the capabilities, the EVLR timing and the chunking: what is read is what read_file reads *)
+Theorem read_via_spec : forall c e chunk f rh, laid_out f rh -> (c_seekable c = true \/ evlrs_adjacent rh) ->
+  fst (read_via c e chunk f) = read_file f.
+Proof.
+  intros c e chunk f rh Hlo Hcase.
+  destruct (laid_out_decomp f rh Hlo) as (R & tail & HF & HR & Hsk & Htail).
+  rewrite (read_file_spec f rh R tail Hlo HF HR Hsk).
+  pose proof Hlo as (Hd & Hok & Hcomp & Hps & Hpp).
+  destruct (dec_header_offset _ _ _ Hd) as [_ Hoff].
+  unfold read_via.
+  destruct (open_reader_spec c e f rh Hlo) as (s1 & B1 & [(rh1 & E1 & P1 & Hrh1)|(er & E1 & Hev)]);
+    rewrite E1; [|rewrite Hev; reflexivity].
+  assert (rh_fields rh1 = rh_fields rh) as Hfields by (destruct Hrh1 as [->|(ev & _ & ->)]; reflexivity).
+  assert (rh_psize rh1 = rh_psize rh) as Hps1 by (destruct Hrh1 as [->|(ev & _ & ->)]; reflexivity).
+  assert (h_count rh1 = h_count rh) as Hc1 by (unfold h_count; now rewrite Hfields).
+  assert (pinv f R tail 0 s1) as Hinv0.
+  { split; [exact B1|]. split; [lia|]. unfold avail. rewrite B1, P1. exact Hsk. }
+  pose proof (len_nonneg R) as HRn.
+  assert (exists X pr1 s2, match chunk with None => (Ok [], 0, s1) | Some k => chunk_loop (S (length f)) c rh1 k 0 s1 end = (Ok X, pr1, s2)
+            /\ 0 <= pr1 <= len R /\ pinv f R tail pr1 s2 /\ R = X ++ skipn (Z.to_nat pr1) R) as (X & pr1 & s2 & E2 & Hpr1 & Hinv1 & HX).
+  { destruct chunk as [k|].
+    - destruct (chunk_loop_spec c rh1 f R tail k ltac:(lia) ltac:(now rewrite Hps1) ltac:(now rewrite Hc1) (S (length f)) 0 s1 ltac:(lia) Hinv0)
+        as (X & pr1 & s2 & E & A & B & C). exists X, pr1, s2. split; [exact E|]. split; [lia|]. split; [exact B|exact C].
+    - exists [], 0, s1. split; [reflexivity|]. split; [lia|]. split; [exact Hinv0|reflexivity]. }
+  rewrite E2.
+  destruct (read_points_spec c rh1 f R tail pr1 (-1) s2 ltac:(lia) ltac:(now rewrite Hps1) ltac:(now rewrite Hc1) Hpr1 Hinv1)
+    as (Y & pr2 & s3 & E3 & Hpr2 & Hinv2 & HY & Hall).
+  rewrite E3. specialize (Hall ltac:(lia)). subst pr2.
+  assert (X ++ Y = R) as HXY.
+  { rewrite HX at 1. f_equal. rewrite HY. unfold len. rewrite Nat2Z.id, skipn_all, app_nil_r. reflexivity. }
+  destruct Hinv2 as (B3 & P3 & A3).
+  assert (avail s3 = skipn (Z.to_nat (rh_offset rh + Z.max 0 (h_count rh) * rh_psize rh)) f) as Ha3.
+  { rewrite A3. unfold len. rewrite Nat2Z.id, skipn_all. cbn [concat app]. exact Htail. }
+  pose proof (finish_evlrs_spec c f rh rh1 s3 Hlo Hcase B3 P3 Ha3 Hrh1) as Hfin.
+  destruct (evlrs_of f rh) as [ev|er].
+  - destruct Hfin as (s4 & E4). rewrite E4. cbn [fst]. now rewrite HXY.
+  - destruct Hfin as (s4 & E4). rewrite E4. reflexivity.
+Qed.
+Print Assumptions read_via_spec.
+
+(* the result does not depend on the access path *)
+Theorem access_path_independent : forall f rh c c' e e' k k', laid_out f rh -> evlrs_adjacent rh ->
+  fst (read_via c e k f) = fst (read_via c' e' k' f).
+Proof.
+  intros f rh c c' e e' k k' Hlo Hadj.
+  rewrite (read_via_spec c e k f rh Hlo (or_intror Hadj)), (read_via_spec c' e' k' f rh Hlo (or_intror Hadj)). reflexivity.
+Qed.
+Print Assumptions access_path_independent.
+
+(* a source that can seek finds the EVLRs wherever they are (a gap after the last point is fine) *)
+Theorem seekable_any_layout : forall f rh c c' e e' k k', laid_out f rh -> c_seekable c = true -> c_seekable c' = true ->
+  fst (read_via c e k f) = fst (read_via c' e' k' f) /\ fst (read_via c e k f) = read_file f.
+Proof.
+  intros f rh c c' e e' k k' Hlo Hc Hc'.
+  rewrite (read_via_spec c e k f rh Hlo (or_introl Hc)), (read_via_spec c' e' k' f rh Hlo (or_introl Hc')). split; reflexivity.
+Qed.
+Print Assumptions seekable_any_layout.
+
+(* ------------------------------------------------------------------------------------ *)
+(* G. memory map                                                                         *)
+(* ------------------------------------------------------------------------------------ *)
+Theorem read_mmap_spec : forall f rh, laid_out f rh ->
+  (h_minor rh >= 4 -> h_nev rh > 0 -> h_evstart rh <= len f) ->
+  read_mmap f = read_file f.
+Proof.
+  intros f rh Hlo Hin. pose proof Hlo as (Hd & Hok & Hcomp & Hps & Hpp).
+  destruct (dec_header_offset _ _ _ Hd) as [_ Hoff]. destruct (dec_header_pre _ _ _ Hd) as [Hl _].
+  destruct (point_recs_spec f rh Hps ltac:(lia) Hpp) as (HF & HR & Hsk).
+  rewrite (read_file_spec f rh (point_recs f rh) _ Hlo HF HR Hsk).
+  unfold read_mmap. destruct (length f =? 0)%nat eqn:E0; [apply Nat.eqb_eq in E0; lia|].
+  rewrite Hd. cbn [bind]. rewrite Hcomp. unfold evlrs_of.
+  assert ((len f <? rh_offset rh + Z.max 0 (h_count rh) * rh_psize rh) = false) as Hpp' by (unfold points_present in Hpp; lia).
+  destruct (h_minor rh >=? 4) eqn:E4; [|cbn [bind]; rewrite Hpp'; reflexivity].
+  destruct (h_nev rh >? 0) eqn:En; [|cbn [bind]; rewrite Hpp'; reflexivity].
+  specialize (Hin ltac:(lia) ltac:(lia)). destruct (len f <? h_evstart rh) eqn:Es; [lia|].
+  destruct (dec_vlrs true (Z.to_nat (h_nev rh)) (skipn (Z.to_nat (h_evstart rh)) f)) as [[l r]|er]; cbn [bind]; [|reflexivity].
+  rewrite Hpp'. reflexivity.
+Qed.
+Print Assumptions read_mmap_spec.
+
+Lemma adjacent_in_file f rh : laid_out f rh -> evlrs_adjacent rh -> h_minor rh >= 4 -> h_nev rh > 0 -> h_evstart rh <= len f.
+Proof. intros (_ & _ & _ & _ & Hpp) Hadj H4 Hn. rewrite (Hadj H4 Hn). exact Hpp. Qed.
+
+Theorem mmap_same_as_streams : forall f rh c e k, laid_out f rh -> evlrs_adjacent rh -> read_mmap f = fst (read_via c e k f).
+Proof.
+  intros f rh c e k Hlo Hadj. rewrite (read_via_spec c e k f rh Hlo (or_intror Hadj)).
+  apply (read_mmap_spec f rh Hlo). now apply adjacent_in_file.
+Qed.
+Print Assumptions mmap_same_as_streams.
+
+(* ---- write_at inside a file ---- *)
+Lemma write_at_in (f : list Z) p bs : 0 <= p -> p + len bs <= len f ->
+  write_at f p bs = firstn (Z.to_nat p) f ++ bs ++ skipn (Z.to_nat p + length bs) f.
+Proof.
+  intros Hp Hl. unfold write_at. cbv zeta.
+  replace (Z.to_nat p - length f)%nat with 0%nat by (unfold len in Hl; lia). reflexivity.
+Qed.
+
+Lemma write_at_len (f : list Z) p bs : 0 <= p -> p + len bs <= len f -> len (write_at f p bs) = len f.
+Proof.
+  intros Hp Hl. rewrite write_at_in by assumption. unfold len in *.
+  rewrite !app_length, firstn_length, skipn_length. lia.
+Qed.
+
+Lemma nth_firstn_lt {A} (l : list A) n j d : (j < n)%nat -> nth j (firstn n l) d = nth j l d.
+Proof.
+  revert n j. induction l as [|x l IH]; intros n j H; [now rewrite firstn_nil|].
+  destruct n; [lia|]. destruct j; [reflexivity|]. cbn [firstn nth]. apply IH. lia.
+Qed.
+
+Lemma nth_skipn_add {A} (l : list A) n j d : nth j (skipn n l) d = nth (n + j) l d.
+Proof.
+  revert n. induction l as [|x l IH]; intros n; [rewrite skipn_nil; now destruct j, n|].
+  destruct n; [reflexivity|]. cbn [skipn Nat.add nth]. apply IH.
+Qed.
+
+Lemma write_at_outside (f : list Z) p bs j : 0 <= p -> p + len bs <= len f ->
+  (j < Z.to_nat p \/ Z.to_nat (p + len bs) <= j)%nat -> nth j (write_at f p bs) 0 = nth j f 0.
+Proof.
+  intros Hp Hl Hj. rewrite write_at_in by assumption. unfold len in *.
+  assert (length (firstn (Z.to_nat p) f) = Z.to_nat p) as L1 by (rewrite firstn_length; lia).
+  destruct Hj as [Hj|Hj].
+  - rewrite app_nth1 by lia. now apply nth_firstn_lt.
+  - rewrite app_nth2 by lia. rewrite app_nth2 by lia. rewrite nth_skipn_add. f_equal. lia.
+Qed.
+
+Lemma write_at_stored (f : list Z) p bs : 0 <= p -> p + len bs <= len f ->
+  firstn (length bs) (skipn (Z.to_nat p) (write_at f p bs)) = bs.
+Proof.
+  intros Hp Hl. rewrite write_at_in by assumption. unfold len in *.
+  rewrite skipn_app_exact by (rewrite firstn_length; lia). now apply firstn_app_exact.
+Qed.
+
+Lemma write_at_app_skip (a b : list Z) q bs : 0 <= q -> q + len bs <= len b ->
+  write_at (a ++ b) (len a + q) bs = a ++ write_at b q bs.
+Proof.
+  intros Hq Hl. pose proof (len_nonneg a) as Ha.
+  rewrite write_at_in by (rewrite ?len_app; lia). rewrite (write_at_in b) by assumption.
+  unfold len in *. replace (Z.to_nat (Z.of_nat (length a) + q)) with (length a + Z.to_nat q)%nat by lia.
+  rewrite firstn_app_2, <- app_assoc. do 2 f_equal.
+  rewrite skipn_app. rewrite skipn_past by lia. cbn [app]. f_equal. f_equal. lia.
+Qed.
+
+Lemma write_at_app_keep (a t : list Z) q bs : 0 <= q -> q + len bs <= len a ->
+  write_at (a ++ t) q bs = write_at a q bs ++ t.
+Proof.
+  intros Hq Hl. rewrite write_at_in by (rewrite ?len_app; pose proof (len_nonneg t); lia).
+  rewrite (write_at_in a) by assumption. unfold len in *.
+  rewrite firstn_app, skipn_app.
+  replace (Z.to_nat q - length a)%nat with 0%nat by lia.
+  replace (Z.to_nat q + length bs - length a)%nat with 0%nat by lia.
+  cbn [firstn skipn]. rewrite app_nil_r, <- !app_assoc. reflexivity.
+Qed.
+
+Lemma skipn_app_ge {A} n (a b : list A) : (length a <= n)%nat -> skipn n (a ++ b) = skipn (n - length a) b.
+Proof. intros H. rewrite skipn_app, skipn_past by exact H. reflexivity. Qed.
+
+Lemma split_nth {A} (l : list A) i d : (i < length l)%nat -> l = firstn i l ++ nth i l d :: skipn (S i) l.
+Proof.
+  revert i. induction l as [|x l IH]; intros i H; [cbn in H; lia|].
+  destruct i; [reflexivity|]. cbn [firstn nth skipn app]. f_equal. apply IH. cbn in H. lia.
+Qed.
+
+Lemma nth_mid_other {A} (a b : list A) x y k d : k <> length a -> nth k (a ++ x :: b) d = nth k (a ++ y :: b) d.
+Proof.
+  intros Hk. destruct (Nat.lt_ge_cases k (length a)) as [H|H].
+  - now rewrite !app_nth1 by exact H.
+  - rewrite !app_nth2 by exact H. destruct (k - length a)%nat eqn:E; [lia|reflexivity].
+Qed.
+
+Lemma hdr_stream_is_prefix f b rh : dec_header f b = Ok rh -> hdr_stream f = firstn (Z.to_nat (rh_offset rh)) f.
+Proof.
+  intros H. destruct (dec_header_offset _ _ _ H) as [Ho Hge]. unfold hdr_stream. cbv zeta.
+  rewrite raw_offset_bytes, <- Ho. destruct (rh_offset rh <? 227) eqn:E; [lia|reflexivity].
+Qed.
+
+Lemma firstn_app_le' {A} n (a b : list A) : (n <= length a)%nat -> firstn n (a ++ b) = firstn n a.
+Proof. intros H. rewrite firstn_app. replace (n - length a)%nat with 0%nat by lia. cbn. apply app_nil_r. Qed.
+
+(* a file that keeps its first offset_to_point_data bytes keeps its header *)
+Lemma dec_header_same_prefix f f' rh : dec_header f false = Ok rh -> rh_offset rh <= len f ->
+  firstn (Z.to_nat (rh_offset rh)) f' = firstn (Z.to_nat (rh_offset rh)) f -> dec_header f' false = Ok rh.
+Proof.
+  intros Hd Hle Hpre. destruct (dec_header_offset _ _ _ Hd) as [Ho Hge]. destruct (dec_header_pre _ _ _ Hd) as [Hl _].
+  assert (length (firstn (Z.to_nat (rh_offset rh)) f) = Z.to_nat (rh_offset rh)) as L by (rewrite firstn_length; unfold len in Hle; lia).
+  assert (Z.to_nat (rh_offset rh) <= length f')%nat as Hl'.
+  { rewrite <- Hpre in L. rewrite firstn_length in L. lia. }
+  assert (forall n, (n <= Z.to_nat (rh_offset rh))%nat -> firstn n f' = firstn n f) as Hsame.
+  { intros n Hn. replace n with (Nat.min n (Z.to_nat (rh_offset rh))) by lia. rewrite <- !firstn_firstn. now rewrite Hpre. }
+  assert (hdr_stream f' = hdr_stream f) as Hs.
+  { rewrite (hdr_stream_is_prefix f false rh Hd). unfold hdr_stream. cbv zeta.
+    rewrite (Hsame 227%nat) by lia. rewrite raw_offset_bytes, <- Ho. destruct (rh_offset rh <? 227) eqn:E; [lia|exact Hpre]. }
+  rewrite <- (dec_header_prefetched f') by lia. rewrite Hs, (dec_header_prefetched f) by exact Hl. exact Hd.
+Qed.
+
+(* an assignment through the memory map: where the file changes, and what a later read shows *)
+Theorem mmap_set_local : forall f rh i o bs, laid_out f rh ->
+  0 <= i < h_count rh -> 0 <= o -> o + len bs <= rh_psize rh -> bytes_ok bs = true ->
+  (h_minor rh >= 4 -> h_nev rh > 0 -> rh_offset rh + h_count rh * rh_psize rh <= h_evstart rh) ->
+  let p := rh_offset rh + i * rh_psize rh + o in
+  let f' := mmap_set f (rh_offset rh) (rh_psize rh) i o bs in
+  len f' = len f
+  /\ (forall j, (j < Z.to_nat p \/ Z.to_nat (p + len bs) <= j)%nat -> nth j f' 0 = nth j f 0)
+  /\ firstn (length bs) (skipn (Z.to_nat p) f') = bs
+  /\ laid_out f' rh
+  /\ (forall lf, read_file f = Ok lf ->
+        exists lf', read_file f' = Ok lf' /\ lf_h lf' = lf_h lf
+          /\ length (lf_points lf') = length (lf_points lf)
+          /\ (forall k, k <> Z.to_nat i -> nth k (lf_points lf') [] = nth k (lf_points lf) [])
+          /\ nth (Z.to_nat i) (lf_points lf') [] = write_at (nth (Z.to_nat i) (lf_points lf) []) o bs).
+Proof.
+  intros f rh i o bs Hlo Hi Ho Hw Hbs Hev p f'.
+  pose proof Hlo as (Hd & Hok & Hcomp & Hps & Hpp). unfold points_present in Hpp.
+  destruct (dec_header_offset _ _ _ Hd) as [_ Hoff].
+  pose proof (len_nonneg bs) as Hbl.
+  assert (Z.max 0 (h_count rh) = h_count rh) as Hmax by lia. rewrite Hmax in Hpp.
+  assert (0 <= p /\ p + len bs <= len f) as [Hp0 Hp1] by (unfold p; nia).
+  assert (f' = write_at f p bs) as Hf' by reflexivity.
+  split; [rewrite Hf'; now apply write_at_len|].
+  split; [intros j Hj; rewrite Hf'; now apply write_at_outside|].
+  split; [rewrite Hf'; now apply write_at_stored|].
+  (* the structure of the file around record i *)
+  destruct (point_recs_spec f rh Hps ltac:(lia) ltac:(unfold points_present; lia)) as (HF & HR & Hsk).
+  set (R := point_recs f rh) in *. set (tail := skipn (Z.to_nat (rh_offset rh + Z.max 0 (h_count rh) * rh_psize rh)) f) in *.
+  set (H0 := firstn (Z.to_nat (rh_offset rh)) f).
+  assert (length H0 = Z.to_nat (rh_offset rh)) as LH by (unfold H0; rewrite firstn_length; unfold len in Hpp; nia).
+  assert (f = H0 ++ concat R ++ tail) as Hf by (unfold H0; rewrite <- Hsk; now rewrite firstn_skipn).
+  set (ii := Z.to_nat i). assert (ii < length R)%nat as Hii by (unfold ii, len in *; lia).
+  set (R1 := firstn ii R). set (r := nth ii R []). set (R2 := skipn (S ii) R).
+  assert (R = R1 ++ r :: R2) as HRs by (apply split_nth; exact Hii).
+  assert (Forall (fun x => length x = Z.to_nat (rh_psize rh)) R1) as HF1 by (now apply Forall_firstn).
+  assert (length r = Z.to_nat (rh_psize rh)) as Lr.
+  { rewrite Forall_forall in HF. apply HF. apply nth_In. exact Hii. }
+  assert (length (concat R1) = (ii * Z.to_nat (rh_psize rh))%nat) as LR1.
+  { rewrite (concat_length_const _ _ HF1). unfold R1. rewrite firstn_length. lia. }
+  set (r' := write_at r o bs). set (R' := R1 ++ r' :: R2).
+  assert (o + len bs <= len r) as Hwr by (unfold len in *; lia).
+  assert (len r' = len r) as Lr' by (apply write_at_len; assumption).
+  assert (f' = H0 ++ concat R' ++ tail) as Hf'2.
+  { rewrite Hf', Hf. unfold R'. rewrite HRs, !concat_app. cbn [concat]. rewrite <- !app_assoc.
+    replace p with (len H0 + (len (concat R1) + o)) by (unfold p, len; rewrite LH, LR1; unfold ii; rewrite Nat2Z.inj_mul, !Z2Nat.id by lia; lia).
+    rewrite write_at_app_skip; [|pose proof (len_nonneg (concat R1)); lia|].
+    2:{ rewrite !len_app. pose proof (len_nonneg (concat R2)). pose proof (len_nonneg tail). pose proof (len_nonneg (concat R1)). lia. }
+    f_equal. rewrite write_at_app_skip; [|lia|].
+    2:{ rewrite !len_app. pose proof (len_nonneg (concat R2)). pose proof (len_nonneg tail). lia. }
+    f_equal. rewrite write_at_app_keep by assumption. reflexivity. }
+  assert (len f' = len f) as Hlen by (rewrite Hf'; now apply write_at_len).
+  (* header, layout *)
+  assert (dec_header f' false = Ok rh) as Hd'.
+  { apply (dec_header_same_prefix f f' rh Hd); [nia|]. fold H0. rewrite Hf'2. apply firstn_app_exact. exact LH. }
+  assert (bytes_ok f' = true) as Hok'.
+  { rewrite Hf'. rewrite write_at_in by assumption. rewrite !bytes_ok_app, Hbs, bytes_ok_firstn, bytes_ok_skipn by exact Hok. reflexivity. }
+  assert (laid_out f' rh) as Hlo'.
+  { repeat split; try assumption. unfold points_present. rewrite Hmax, Hlen. exact Hpp. }
+  split; [exact Hlo'|].
+  (* what is read *)
+  assert (Forall (fun x => length x = Z.to_nat (rh_psize rh)) R') as HF'.
+  { unfold R'. rewrite HRs in HF. apply Forall_app in HF as [A B]. apply Forall_app. split; [exact A|].
+    inversion B as [|x xs Hx Hxs]. constructor; [unfold len in Lr'; lia|exact Hxs]. }
+  assert (len R' = Z.max 0 (h_count rh)) as HR'.
+  { rewrite <- HR. unfold R', len. rewrite HRs, !app_length. reflexivity. }
+  assert (skipn (Z.to_nat (rh_offset rh)) f' = concat R' ++ tail) as Hsk' by (rewrite Hf'2; now apply skipn_app_exact).
+  assert (evlrs_of f' rh = evlrs_of f rh) as Hevs.
+  { unfold evlrs_of. destruct (h_minor rh >=? 4) eqn:E4; [|reflexivity]. destruct (h_nev rh >? 0) eqn:En; [|reflexivity].
+    specialize (Hev ltac:(lia) ltac:(lia)).
+    assert (skipn (Z.to_nat (h_evstart rh)) f' = skipn (Z.to_nat (h_evstart rh)) f) as ->; [|reflexivity].
+    rewrite Hf'2, Hf, !app_assoc.
+    assert (length (H0 ++ concat R') = length (H0 ++ concat R)) as LL.
+    { rewrite !app_length. f_equal. rewrite (concat_length_const _ _ HF'), (concat_length_const _ _ HF). unfold len in HR', HR. lia. }
+    assert (length (H0 ++ concat R) <= Z.to_nat (h_evstart rh))%nat as Lge.
+    { rewrite app_length, LH, (concat_length_const _ _ HF). unfold len in HR. nia. }
+    rewrite (skipn_app_ge _ (H0 ++ concat R') tail) by (rewrite LL; exact Lge).
+    rewrite (skipn_app_ge _ (H0 ++ concat R) tail) by exact Lge. now rewrite LL. }
+  intros lf Hrf.
+  rewrite (read_file_spec f rh R tail Hlo HF HR Hsk) in Hrf.
+  rewrite (read_file_spec f' rh R' tail Hlo' HF' HR' Hsk'), Hevs.
+  destruct (evlrs_of f rh) as [ev|er]; [|discriminate]. injection Hrf as <-.
+  eexists. split; [reflexivity|]. cbn [lf_h lf_points]. split; [reflexivity|].
+  split; [unfold R'; rewrite HRs, !app_length; reflexivity|].
+  assert (length R1 = ii) as L1 by (unfold R1; rewrite firstn_length; lia).
+  split.
+  - intros k Hk. unfold R'. rewrite HRs. apply nth_mid_other. lia.
+  - unfold R'. fold ii. change (nth ii R []) with r. rewrite <- L1, nth_middle. reflexivity.
+Qed.
+Print Assumptions mmap_set_local.
+
+(* ------------------------------------------------------------------------------------ *)
+(* H. every file the writer model produces is laid out, with adjacent EVLRs               *)
+(* ------------------------------------------------------------------------------------ *)
+Lemma names_in_header m : 1 <= m <= 4 ->
+  In "version.minor"%string (header_field_names m) /\ In "point_format_id"%string (header_field_names m).
+Proof.
+  intros Hm. assert (m = 1 \/ m = 2 \/ m = 3 \/ m = 4) as [->|[->|[->| ->]]] by lia;
+  split; apply in_by_existsb; vm_compute; reflexivity.
+Qed.
+
+Theorem written_files_laid_out : forall ap h vl fmt recs evl f h',
+  file_of ap h vl fmt recs evl = Ok f -> final_hdr ap h vl fmt recs evl = Ok h' ->
+  wf_header h' vl = true -> forallb (wf_vlr true) evl = true ->
+  recs_ok (aint h' "point_size") recs = true -> 0 < aint h' "point_size" ->
+  (evl = [] \/ aint h "version.minor" >= 4) -> len evl <= MAX_VLRS ->
+  is_point_format_compressed (aint h' "point_format_id") = false -> bytes_ok f = true ->
+  exists rh, laid_out f rh /\ evlrs_adjacent rh.
+Proof.
+  intros ap h vl fmt recs evl f h' Hf Hh Hwf Hwe Hok Hps Hev4 Hmax Hunc Hbytes.
+  destruct (read_write_roundtrip _ _ _ _ _ _ _ _ Hf Hh Hwf Hwe Hok Hps Hev4 Hmax)
+    as (lf & Hrf & Hpts & _ & _ & Hcnt & Hpsz & Hoff & Hget).
+  destruct (file_of_inv _ _ _ _ _ _ _ _ Hf Hh) as (hh & bs & eb & E1 & Heb & Hfe & Hl & Hc & Hmn & Hev0 & Hev1).
+  destruct (file_length _ _ _ _ _ _ _ _ _ Hf Hh Heb Hok) as (Hlen & Hadj & _).
+  destruct (enc_header_raw _ _ _ _ _ E1) as (Hm & _).
+  (* the header read with and without EVLRs *)
+  assert (dec_header f true = Ok (lf_h lf)) as Hdt.
+  { unfold read_file in Hrf. destruct (dec_header f true) as [rh'|e]; [|discriminate]. cbn [bind] in Hrf.
+    destruct (aint (rh_fields rh') "point_count" <=? 0).
+    - injection Hrf as <-. reflexivity.
+    - destruct (read_records f (rh_offset rh') (rh_psize rh') 0 (aint (rh_fields rh') "point_count")); [|discriminate].
+      cbn [bind] in Hrf. injection Hrf as <-. reflexivity. }
+  destruct (dec_header_evlrs_conv _ _ Hdt) as (rh & Hd).
+  pose proof (dec_header_evlrs _ _ Hd) as Hsame. rewrite Hdt in Hsame.
+  destruct Hsame as (Sf & _ & _ & Sp & So & Sc).
+  set (m := aint h' "version.minor") in *.
+  destruct (names_in_header m Hm) as [N1 N2].
+  assert (forall n, String.eqb n "zero" = false -> String.eqb n "signature" = false -> In n (header_field_names m) ->
+            aint (rh_fields rh) n = aint h' n) as Hint.
+  { intros n Z1 Z2 Hin. rewrite <- Sf. apply aint_of_get; auto. }
+  assert (h_count rh = len recs) as Hcount by (unfold h_count; rewrite <- Sf; exact Hcnt).
+  pose proof (len_nonneg recs) as Hrn. pose proof (len_nonneg eb) as Hen.
+  assert (Z.max 0 (h_count rh) = len recs) as Hmaxc by lia.
+  exists rh. split.
+  - split; [exact Hd|]. split; [exact Hbytes|]. split; [|split].
+    + destruct (dec_header_fields _ _ _ Hd) as [Hg Hcomp]. rewrite Hcomp.
+      assert (aint (rh_fields rh) "point_format_id" = aint h' "point_format_id") as Hpf by (apply Hint; auto).
+      unfold aint in Hpf at 1. rewrite Hg in Hpf by reflexivity. unfold aint at 1. rewrite Hpf. exact Hunc.
+    + rewrite <- Sp, Hpsz. exact Hps.
+    + unfold points_present. rewrite Hmaxc, <- Sp, <- So, Hpsz, Hoff. lia.
+  - intros H4 Hn.
+    assert (h_minor rh = m) as Hmin by (unfold h_minor; apply Hint; auto).
+    assert (m = 4) as M4 by lia. destruct evlr_names as [E_n E_s]. rewrite <- M4 in E_n, E_s.
+    assert (h_nev rh = aint h' "number_of_evlrs") as Hnev by (unfold h_nev; apply Hint; auto).
+    assert (h_evstart rh = aint h' "start_of_first_evlr") as Hst by (unfold h_evstart; apply Hint; auto).
+    destruct evl as [|ev evl]; [rewrite (Hev0 eq_refl) in Hnev; lia|].
+    destruct (Hadj ltac:(discriminate)) as [A _].
+    rewrite Hst, A, Hmaxc, <- Sp, <- So, Hpsz, Hoff. reflexivity.
+Qed.
+Print Assumptions written_files_laid_out.
